@@ -173,13 +173,42 @@ def run(tier, seed):
             rep.violation(f"C02/{exp}-{d}/encrypted-{api}", f"{exp} {d}: encrypted write / {api} read of a {l}-byte body followed by a second message: '{h[:140]}' (expected '{want}')",
                           {"input": rq, "implementation": h, "expected": want, "replay_cmd": f"echo '{rq}' | {har}"})
     n_known = 0
+    # ---- declared size = bytes written, for messages whose size comes from hand-written helpers of built-in types (splines, masks,
+    # NamedGuid, …): canonical values from the python reference encoder (cross-checked against the Lean decoder by C01) are read and
+    # written back; a writer whose size() disagrees with what it writes aborts on its size assertion
+    sys.path.insert(0, os.path.join(os.path.dirname(__file__), "..", "tools"))
+    import semcorr, pyenc
+    prng = SplitMix64(seed ^ 0xC02)
+    breq, bmeta = [], []
+    for c in semcorr.build_corpus():
+        if "tokens" not in c or "prim" not in c["tokens"]:
+            continue
+        for s_ in range(10 if tier == "quick" else 60):
+            try:
+                body = pyenc.encode(c["tokens"], prng, (0, 1, 3)[s_ % 3], s_ if s_ < 8 else None)
+            except pyenc.Unsupported:
+                break
+            except (OverflowError, ValueError):
+                continue
+            dr = semcorr.directions(c)[0]
+            fr = semcorr.frame(semcorr.libname(c), dr, c["opcode"], body)
+            if len(fr) < 60000:
+                breq.append(f"codec {semcorr.libname(c)} {dr} {fr.hex()}")
+                bmeta.append(c)
+    bo = run_parallel(har, breq, jobs=8) if breq else []
+    n_builtin = 0
+    for c, rq, h in zip(bmeta, breq, bo):
+        n_builtin += 1
+        if h.startswith("abort write-panic"):
+            rep.violation(f"C02/declared-size/{c['key']}", f"{c['key']}: writing a decoded canonical message aborts: the declared size differs from the bytes written ({h[:140]})",
+                          {"container": c["key"], "input": rq[:8000], "implementation": h[:300], "replay_cmd": f"echo '{rq[:8000]}' | {har}"})
     rep.coverage = {
         "obligations": po["obligations"] + len(CONSTS), "discharged": po["discharged"] + sum(1 for k, v in CONSTS.items() if consts_seen.get(k) == v),
         "checker_cmd": "cd /verif/lean && lake build WowVerif.Thm.C02 && lake env lean WowVerif/Thm/C02.lean",
         "trusted_base": TRUSTED_BASE_COMMON + ["hand transcription of traits/*.rs, util/trait_helpers/*.rs, the header parsing in opcodes.rs and expected.rs (validated by the correspondence)",
                                                "the body codec of *_WARDEN_DATA (u8[-], at most 65535 bytes) is modelled in the driver only for this correspondence"],
         "theorems": po["theorems"], "constants_checked": consts_seen,
-        "evaluations": len(reqs) + len(reads) + len(seqs) + len(ereqs), "encrypted_boundary_sequences": len(ereqs), "distinct_nontrivial": len(set(meta)) + len(set(map(str, smeta))),
+        "builtin_type_messages_written": n_builtin, "evaluations": len(reqs) + len(reads) + len(seqs) + len(ereqs), "encrypted_boundary_sequences": len(ereqs), "distinct_nontrivial": len(set(meta)) + len(set(map(str, smeta))),
         "write_requests": len(reqs), "read_requests": len(reads), "sequences": len(seqs), "writes_violating_property": n_abort,
         "rule": "body lengths 0..300 (thorough 0..2048), +-8 around 0x7FFB 0x7FFF 0x8000 0xFFFB 0xFFFF 0x10003, random lengths, large Wrath server bodies; 3 expansions x 2 directions; "
                 "each written frame read back through the opcode-enum reader and the expect helper with 0/3 trailing bytes and with 2 surplus body bytes; random sequences of 1-20 messages on one stream",
